@@ -19,15 +19,16 @@ from .heap import MapVal, ChanVal, Obj
 
 
 class Event:
-    __slots__ = ("thread", "seg", "guard", "apply", "desc", "pos")
+    __slots__ = ("thread", "seg", "guard", "apply", "desc", "pos", "enabled")
 
-    def __init__(self, thread, seg, guard, apply, desc, pos=None):
+    def __init__(self, thread, seg, guard, apply, desc, pos=None, enabled=None):
         self.thread = thread
         self.seg = seg
         self.guard = guard
         self.apply = apply
         self.desc = desc
         self.pos = pos
+        self.enabled = enabled  # for blocking operations: () -> condition under which it can proceed in the current state
 
 
 class Thread:
@@ -347,13 +348,24 @@ class Conc:
             ws.add(path)
             self.changed = True
 
-    def add_event(self, guard, apply, desc, pos=None, visible=False, same_op=False):
+    def add_event(self, guard, apply, desc, pos=None, visible=False, same_op=False, enabled=None):
         th = self.recording
         if (visible or self.switch_all) and not same_op:
             th.nseg += 1
         if th.nseg == 0:
             th.nseg = 1
-        th.events.append(Event(th, th.nseg - 1, guard, apply, desc, pos))
+        th.events.append(Event(th, th.nseg - 1, guard, apply, desc, pos, enabled))
+
+    def blocked_guard(self, t):
+        """thread t is not finished and the blocking operation it stands in front of cannot proceed in the final state"""
+        th = self.threads[t]
+        res = False
+        for e in th.events:
+            if e.enabled is None:
+                continue
+            at = int_cmp("==", self.final_to[t], e.seg, 16, False)
+            res = b_or(res, b_and(at, e.guard, b_not(e.enabled())))
+        return res
 
     # hooks installed on the executor -------------------------------------------------------------
     def read_cell(self, o, path, guard):
@@ -488,7 +500,8 @@ class Conc:
                     rd = self.sget(("r", k))
                     ex.assume(b_implies(active, b_and(int_cmp("==", w, 0, 8, False), int_cmp("==", rd, 0, 8, False))), True, "")
                     self.sync_state[("w", k)] = i_ite(active, 1, w, 8)
-                self.add_event(gg, apply, "lock %s" % (k,), pos, visible=True)
+                self.add_event(gg, apply, "lock %s" % (k,), pos, visible=True,
+                               enabled=lambda k=k: b_and(int_cmp("==", self.sget(("w", k)), 0, 8, False), int_cmp("==", self.sget(("r", k)), 0, 8, False)))
             elif kind == "unlock":
                 def apply(active, k=k):
                     w = self.sget(("w", k))
@@ -500,7 +513,7 @@ class Conc:
                     rd = self.sget(("r", k))
                     ex.assume(b_implies(active, int_cmp("==", w, 0, 8, False)), True, "")
                     self.sync_state[("r", k)] = i_ite(active, int_binop("+", rd, 1, 8, False), rd, 8)
-                self.add_event(gg, apply, "rlock %s" % (k,), pos, visible=True)
+                self.add_event(gg, apply, "rlock %s" % (k,), pos, visible=True, enabled=lambda k=k: int_cmp("==", self.sget(("w", k)), 0, 8, False))
             elif kind == "runlock":
                 def apply(active, k=k):
                     rd = self.sget(("r", k))
@@ -558,7 +571,12 @@ class Conc:
                 nw = self.sget(("nwait", k), 0)
                 self.sync_state[("nwait", k)] = i_ite(active, int_binop("-", nw, 1, 16, False), nw, 16)
                 self.sync_state[("w", lockref_key)] = i_ite(active, 1, w, 8)
-            self.add_event(gg, apply2, "cond.wait-reacquire %s" % (k,), pos, visible=True)
+            def en2(k=k, ticket=ticket):
+                avail = self.sget(("avail", k), 0)
+                bc = self.sget(("bcast", k), 0)
+                woke = b_or(int_cmp(">", avail, 0, 16, False), int_cmp(">", bc, ticket, 16, False))
+                return b_and(woke, int_cmp("==", self.sget(("w", lockref_key)), 0, 8, False))
+            self.add_event(gg, apply2, "cond.wait-reacquire %s" % (k,), pos, visible=True, enabled=en2)
         return None, guard
 
     def cond_signal(self, condptr, guard, pos, broadcast=False):
@@ -598,7 +616,8 @@ class Conc:
                 def apply(active, k=k):
                     c = self.sget(k, 0)
                     ex.assume(b_implies(active, int_cmp("==", c, 0, 64, True)), True, "")
-            self.add_event(gg, apply, "wg.%s %s" % (kind, k), pos, visible=True)
+            self.add_event(gg, apply, "wg.%s %s" % (kind, k), pos, visible=True,
+                           enabled=(None if kind == "add" else (lambda k=k: int_cmp("==", self.sget(k, 0), 0, 64, True))))
         return None, guard
 
     # --- sync.Pool: Get returns New() or any object previously Put and not handed out since
@@ -821,7 +840,14 @@ class Conc:
         def apply(active, ch=ch, x=x):
             ok = ex.chan_send(ch, x, active)
             ex.assume(b_implies(active, ok), True, "")
-        self.add_event(guard, apply, "chan send", pos, visible=True)
+        def en(ch=ch):
+            r_ = False
+            for g, r in ch.alts:
+                if r is not None:
+                    cv = ex.heap[r.obj].val
+                    r_ = b_or(r_, b_and(g, int_cmp("<", cv.len, cv.cap, 64, True)))
+            return r_
+        self.add_event(guard, apply, "chan send", pos, visible=True, enabled=en)
 
     def chan_recv_blocking(self, ch, guard, pos, elem_tid):
         ex = self.ex
@@ -842,7 +868,14 @@ class Conc:
             ex.assume(b_implies(active, b_and(succ, b_eq(okv, okr), b_implies(okr, e))), True, "")
             for g_, kd, x in miss:
                 self.cand_missing.append((b_and(active, okr, g_), kd, x, ckey))
-        self.add_event(guard, apply, "chan recv", pos, visible=True)
+        def en(ch=ch):
+            r_ = False
+            for g, r in ch.alts:
+                if r is not None:
+                    cv = ex.heap[r.obj].val
+                    r_ = b_or(r_, b_and(g, b_or(int_cmp(">", cv.len, 0, 64, True), cv.closed)))
+            return r_
+        self.add_event(guard, apply, "chan recv", pos, visible=True, enabled=en)
         return ex.ite(okv, rv, ex.zero(elem_tid), elem_tid), okv
 
     def initial_val(self, o):
@@ -912,7 +945,21 @@ class Conc:
                             self.cand_missing.append((b_and(ci, okr, g_), kd, xx, ckey))
             if not blocking:
                 ex.assume(b_implies(b_and(active, int_cmp("==", choice, len(cases), 8, False)), b_not(any_ready)), True, "")
-        self.add_event(guard, apply, "select(%d cases%s)" % (n, "" if blocking else ", default"), pos, visible=True)
+        def en(cases=cases):
+            if not blocking:
+                return True
+            r_ = False
+            for (d, ch, x, et) in cases:
+                for g, r in ch.alts:
+                    if r is None:
+                        continue
+                    cv = ex.heap[r.obj].val
+                    if d == 1:
+                        r_ = b_or(r_, b_and(g, int_cmp("<", cv.len, cv.cap, 64, True)))
+                    else:
+                        r_ = b_or(r_, b_and(g, b_or(int_cmp(">", cv.len, 0, 64, True), cv.closed)))
+            return r_
+        self.add_event(guard, apply, "select(%d cases%s)" % (n, "" if blocking else ", default"), pos, visible=True, enabled=en)
         idx = i_ite(int_cmp("<", choice, n, 8, False), int_convert(choice, 8, False, 64, True), wrap(-1, 64, True), 64)
         rok = False
         for i, (d, ch, x, et) in enumerate(cases):
@@ -1122,6 +1169,23 @@ def p_thread_idle(ex, args, guard, pos):
     if not isinstance(i, int):
         raise Unsupported("vThreadIdle: index must be concrete")
     return int_cmp("==", c.final_to[i], 0, 16, False), guard
+
+
+def p_thread_blocked(ex, args, guard, pos):
+    c = get_conc(ex)
+    i = args[0]
+    if not isinstance(i, int):
+        raise Unsupported("vThreadBlocked: index must be concrete")
+    return c.blocked_guard(i), guard
+
+
+def p_stuck(ex, args, guard, pos):
+    """no thread can make progress: every thread is finished or stands in front of a blocking operation that is disabled"""
+    c = get_conc(ex)
+    res = True
+    for t in range(len(c.threads)):
+        res = b_and(res, b_or(c.done_guards[t], c.blocked_guard(t)))
+    return res, guard
 
 
 def p_thread_done(ex, args, guard, pos):
